@@ -192,6 +192,10 @@ func (p *Report) Floor(counter string, min int64) {
 
 // Finish writes the result file named by VERIF_RESULT (or stdout) and fails the test on violations.
 func (p *Report) Finish(t *testing.T) {
+	if t.Failed() {
+		// the test function was aborted (t.Fatal / t.Error) before the monitor finished: never a pass
+		p.HarnessError("the test function failed before the monitor completed (see the child's output)")
+	}
 	p.mu.Lock()
 	p.r.WallS = time.Since(p.start).Seconds()
 	p.r.Done = true
